@@ -67,6 +67,8 @@ class Lab:
         return "L%s(%s)" % ("inf" if self.d >= INF else self.d, self.origin[:40])
 
     def key(self):
+        if isinstance(self.parts, dict):
+            return (self.d, tuple(sorted((str(k), p.key()) for k, p in self.parts.items())))
         return (self.d, tuple(p.key() for p in self.parts) if self.parts else None)
 
 
@@ -78,6 +80,21 @@ def lmin(*labs):
     for l in labs:
         if l is not None and l.d < best.d:
             best = l
+    # per-key labels of dict displays survive a join: a side without them contributes what any of its items may be
+    keyed = [l for l in labs if l is not None and isinstance(l.parts, dict)]
+    if keyed:
+        keys = set(keyed[0].parts)
+        if all(set(l.parts) == keys for l in keyed):
+            others = [dec(l) for l in labs if l is not None and not isinstance(l.parts, dict) and l.d < INF]
+            parts = {}
+            for k in keys:
+                cands = [l.parts[k] for l in keyed] + others
+                m = FRESH
+                for c in cands:
+                    if c.d < m.d:
+                        m = c
+                parts[k] = Lab(m.d, m.origin)
+            return Lab(best.d, best.origin, parts)
     if best.parts is not None:
         return Lab(best.d, best.origin)
     return best
@@ -428,6 +445,10 @@ class Effects:
 
     def _join(self, env, name, lab):
         old = env.get(name, FRESH)
+        if isinstance(lab.parts, dict) or isinstance(old.parts, dict):
+            # dict displays with constant keys: keep the per-key labels across definitions
+            env[name] = lmin(old, lab) if name in env else lab
+            return
         if lab.d < old.d:
             env[name] = lab if lab.parts is None or name not in env else Lab(lab.d, lab.origin)
         elif name not in env:
@@ -438,7 +459,7 @@ class Effects:
             self._join(env, target.id, lab)
         elif isinstance(target, (ast.Tuple, ast.List)):
             for i, e in enumerate(target.elts):
-                if lab.parts is not None and i < len(lab.parts):
+                if isinstance(lab.parts, list) and i < len(lab.parts):
                     self._bind(f, e, lab.parts[i], env)
                 else:
                     self._bind(f, e, dec(lab), env)
@@ -564,6 +585,10 @@ class Effects:
             base = self.L(f, e.value, env)
             if isinstance(e.slice, ast.Slice):
                 return shallow(base)
+            if isinstance(base.parts, dict):
+                if isinstance(e.slice, ast.Constant) and e.slice.value in base.parts:
+                    return base.parts[e.slice.value]
+                return dec(base)
             if base.parts is not None and isinstance(e.slice, ast.Constant) and isinstance(e.slice.value, int):
                 i = e.slice.value
                 if -len(base.parts) <= i < len(base.parts):
@@ -574,7 +599,14 @@ class Effects:
         if isinstance(e, (ast.List, ast.Tuple, ast.Set)):
             return seq([self.L(f, x, env) for x in e.elts])
         if isinstance(e, ast.Dict):
-            return inc(lmin(*[self.L(f, v, env) for v in e.values if v is not None])) if e.values else FRESH
+            if not e.values:
+                return FRESH
+            vals = [self.L(f, v, env) for v in e.values if v is not None]
+            lab = inc(lmin(*[Lab(v.d, v.origin) for v in vals]))
+            if all(isinstance(k, ast.Constant) for k in e.keys) and len(vals) == len(e.keys):
+                # per-key labels of a display with constant keys
+                lab = Lab(lab.d, lab.origin, {k.value: Lab(v.d, v.origin) for k, v in zip(e.keys, vals)})
+            return lab
         if isinstance(e, (ast.ListComp, ast.SetComp, ast.GeneratorExp)):
             env2 = env  # comprehension targets are bound by the ast.comprehension transfer
             return inc(self.L(f, e.elt, env2))
